@@ -197,6 +197,15 @@ def make_function(world, fid, sig, kind='func', is_mw=False, meta=None):
     if kind == 'func':
         exec('def f(%s):\n    return %s\n' % (sig_src(sig, lead), call), ns)
         return ns['f']
+    if kind in ('kwnext', 'kwnext-method'):
+        # a middleware function all of whose parameters - `next` first among them - are keyword-only
+        allkw = [[p[0], 'kw', p[2]] for p in sig]
+        params = ', '.join((['self'] if kind == 'kwnext-method' else []) + ['*', 'next'] + [n + ('=_D[%r]' % n if d else '') for n, k, d in allkw])
+        if kind == 'kwnext':
+            exec('def f(%s):\n    return %s\n' % (params, call), ns)
+            return ns['f']
+        exec('class C(object):\n    def f(%s):\n        return %s\n' % (params, call), ns)
+        return ns['C']().f
     if kind == 'lambda':
         params = sig_src(sig, lead)
         exec('f = lambda %s: %s\n' % (params, call), ns)
@@ -281,7 +290,10 @@ def _make_mw(world, mwid, mw):
         elif flags.get(phase) == 'no-next':
             f = make_raw(world, fid, sig, meta, [])
         else:
-            f = make_function(world, fid, sig, 'mw-method' if mw.get('style') == 'method' else 'func', True, meta)
+            kind_ = 'mw-method' if mw.get('style') == 'method' else 'func'
+            if mw.get('kwnext') and not any(p[1] == 'posonly' for p in norm_sig(sig)):
+                kind_ = 'kwnext-method' if kind_ == 'mw-method' else 'kwnext'
+            f = make_function(world, fid, sig, kind_, True, meta)
         setattr(inst, phase, f)
     return inst
 
